@@ -30,6 +30,10 @@ struct WorkerView {
     subs_seen: u64,
     last_sub: Option<String>,
     last_line_at: Option<Instant>,
+    /// CPU time (clock ticks, all threads) of the worker sampled at (within 0.2 s before) the last line
+    cpu_ticks: u64,
+    cpu_sampled_at: Option<Instant>,
+    pid: u32,
     findings: Vec<(u64, Finding)>,
     harness_errors: Vec<String>,
     stats: Option<Stats>,
@@ -76,6 +80,7 @@ fn spawn_worker(
     let mut child = cmd.spawn()?;
     let view = Arc::new(Mutex::new(WorkerView {
         last_line_at: Some(Instant::now()),
+        pid: child.id(),
         ..Default::default()
     }));
     let stderr_tail = Arc::new(Mutex::new(Vec::new()));
@@ -110,6 +115,63 @@ fn spawn_worker(
     })
 }
 
+/// (CPU ticks consumed by all threads of the process, whether any thread is runnable or in
+/// uninterruptible I/O) from /proc; None when the process is gone.
+fn proc_cpu_and_runnable(pid: u32) -> Option<(u64, bool)> {
+    let stat = std::fs::read_to_string(format!("/proc/{pid}/stat")).ok()?;
+    let rest = &stat[stat.rfind(')')? + 2..];
+    let f: Vec<&str> = rest.split(' ').collect();
+    // rest starts at field 3 (state); utime = field 14, stime = field 15
+    let ticks = f.get(11)?.parse::<u64>().ok()? + f.get(12)?.parse::<u64>().ok()?;
+    let mut runnable = false;
+    if let Ok(rd) = std::fs::read_dir(format!("/proc/{pid}/task")) {
+        for e in rd.flatten() {
+            if let Ok(st) = std::fs::read_to_string(e.path().join("stat")) {
+                if let Some(i) = st.rfind(')') {
+                    let state = st.as_bytes().get(i + 2).copied().unwrap_or(b'?');
+                    if state == b'R' || state == b'D' {
+                        runnable = true;
+                    }
+                }
+            }
+        }
+    }
+    Some((ticks, runnable))
+}
+
+/// A worker that has printed nothing for the watchdog period is a *hang* only if that is not the
+/// machine's fault: it has burnt at least half the period in CPU time since its last line (busy
+/// loop), or none of its threads is runnable over three samples and its CPU time stands still
+/// (parked for good: missed wake-up, deadlock outside thread-sim). A worker that is merely starved
+/// of CPU by other jobs keeps its time; 20 watchdog periods of silence end the patience.
+fn is_hang(view: &Arc<Mutex<WorkerView>>, watchdog: Duration) -> bool {
+    let (pid, cpu0, silent) = {
+        let v = view.lock().unwrap();
+        (v.pid, v.cpu_ticks, v.last_line_at.map(|t| t.elapsed()).unwrap_or_default())
+    };
+    if silent > watchdog * 20 {
+        return true;
+    }
+    // SAFETY: sysconf has no preconditions
+    let hz = unsafe { libc::sysconf(libc::_SC_CLK_TCK) }.max(1) as u64;
+    let Some((c1, r1)) = proc_cpu_and_runnable(pid) else { return false };
+    if c1.saturating_sub(cpu0) >= watchdog.as_secs() * hz / 2 {
+        return true;
+    }
+    if r1 {
+        return false;
+    }
+    for _ in 0..2 {
+        std::thread::sleep(Duration::from_millis(300));
+        match proc_cpu_and_runnable(pid) {
+            Some((c, r)) if !r && c == c1 => {}
+            _ => return false,
+        }
+    }
+    // still silent? (a line may have arrived while sampling)
+    view.lock().unwrap().last_line_at.map(|t| t.elapsed() > watchdog).unwrap_or(false)
+}
+
 fn read_worker_stdout(stdout: impl Read, view: Arc<Mutex<WorkerView>>) {
     let r = BufReader::with_capacity(1 << 16, stdout);
     for line in r.split(b'\n') {
@@ -121,6 +183,12 @@ fn read_worker_stdout(stdout: impl Read, view: Arc<Mutex<WorkerView>>) {
         let rest = String::from_utf8_lossy(&line[2..]).into_owned();
         let mut v = view.lock().unwrap();
         v.last_line_at = Some(Instant::now());
+        if v.cpu_sampled_at.map(|t| t.elapsed() > Duration::from_millis(200)).unwrap_or(true) {
+            if let Some((ticks, _)) = proc_cpu_and_runnable(v.pid) {
+                v.cpu_ticks = ticks;
+            }
+            v.cpu_sampled_at = Some(Instant::now());
+        }
         match tag {
             b'S' => {
                 v.last_idx = rest.trim().parse().ok();
@@ -206,7 +274,11 @@ pub fn exec_plan(check: &dyn Check, plan: &Value, scratch: &Path) -> ExecResult 
         .stderr(Stdio::piped())
         .spawn()
         .expect("spawn exec");
-    let view = Arc::new(Mutex::new(WorkerView::default()));
+    let view = Arc::new(Mutex::new(WorkerView {
+        last_line_at: Some(Instant::now()),
+        pid: child.id(),
+        ..Default::default()
+    }));
     let stdout = child.stdout.take().unwrap();
     let mut stderr = child.stderr.take().unwrap();
     let v2 = view.clone();
@@ -216,13 +288,14 @@ pub fn exec_plan(check: &dyn Check, plan: &Value, scratch: &Path) -> ExecResult 
         let _ = stderr.read_to_end(&mut s);
         s
     });
-    let deadline = Instant::now() + Duration::from_secs(check.watchdog_s());
+    let watchdog = Duration::from_secs(check.watchdog_s());
     let mut hang = false;
     let status = loop {
         match child.try_wait() {
             Ok(Some(st)) => break st,
             Ok(None) => {
-                if Instant::now() > deadline {
+                let stale = view.lock().unwrap().last_line_at.map(|t| t.elapsed() > watchdog).unwrap_or(false);
+                if stale && is_hang(&view, watchdog) {
                     hang = true;
                     let _ = child.kill();
                     break child.wait().expect("wait");
@@ -351,7 +424,7 @@ pub fn run_check(check: &dyn Check, opts: &Options) -> i32 {
                         let v = w.view.lock().unwrap();
                         v.last_line_at.map(|t| t.elapsed() > watchdog).unwrap_or(false) && !v.done
                     };
-                    if stale {
+                    if stale && is_hang(&w.view, watchdog) {
                         hang = true;
                         let _ = w.child.kill();
                         Some(w.child.wait().expect("wait"))
